@@ -23,11 +23,15 @@ type params struct {
 	Mode     string // silent | late (pong after timeout+1ms) | justintime (pong after timeout-1ms, forever) | prompt
 	Traffic  bool
 	BPings   bool // the broker sends pings of its own
+	LateReply bool // an application request gives up (200 ms) and its answer arrives 1.5 s later; the pongs stay prompt
 	Burst    int  // the broker sends this many pings at once while the client's transport write is stalled (back pressure)
 	P        int
 }
 
 func (p params) name() string {
+	if p.LateReply {
+		return fmt.Sprintf("i%v/t%v/k%d/%s/traffic%v/latereply/P%d", p.Interval, p.Timeout, p.K, p.Mode, p.Traffic, p.P)
+	}
 	if p.Burst > 0 {
 		return fmt.Sprintf("i%v/t%v/k%d/%s/traffic%v/burst%d/P%d", p.Interval, p.Timeout, p.K, p.Mode, p.Traffic, p.Burst, p.P)
 	}
@@ -61,6 +65,13 @@ func scenarios(tier string) []vlib.Scenario {
 	}
 	add(params{Interval: time.Second, Timeout: time.Second, K: 1, Mode: "silent", Traffic: true, P: 1})
 	add(params{Interval: time.Second, Timeout: time.Second, K: -1, Mode: "prompt", BPings: true, P: 1})
+	// an answer that arrives after its caller gave up must not disturb the keep-alive of a healthy peer
+	add(params{Interval: time.Second, Timeout: time.Second, K: -1, Mode: "prompt", LateReply: true})
+	add(params{Interval: time.Second, Timeout: time.Second, K: -1, Mode: "prompt", LateReply: true, P: 1})
+	// a peer that stops answering but keeps pinging
+	for _, c := range cfgs[:4] {
+		add(params{Interval: c[0], Timeout: c[1], K: 1, Mode: "silent", BPings: true})
+	}
 	// a peer that hangs: it stops answering and stops reading, so the client's writes stall too
 	for _, c := range cfgs[:4] {
 		for k := 0; k <= 2; k++ {
@@ -115,6 +126,17 @@ type world struct {
 func (w *world) script() *sim.Script {
 	s := &sim.Script{}
 	_, timeout := w.p.eff()
+	if w.p.LateReply {
+		s.OnMessage = func(b *sim.Broker, c *sim.BConn, m message.Message) bool {
+			if _, ok := m.(*message.UpstreamMetadata); ok {
+				vsched.AfterFunc(1500*time.Millisecond, "h:late-reply", func() {
+					vsched.Spawn("h:late-reply", func() { b.HandleDefault(c, m) })
+				})
+				return true
+			}
+			return false
+		}
+	}
 	s.AnswerPing = func(c *sim.BConn, p *message.Ping) (bool, time.Duration) {
 		if c.Idx != 0 {
 			return true, 0 // redialled incarnations are healthy
@@ -184,7 +206,19 @@ func (w *world) main() {
 			})
 		}
 	}
-	if w.p.BPings {
+	if w.p.BPings && w.p.Mode != "prompt" && w.p.Mode != "justintime" {
+		// a peer that stops answering the client's pings but keeps sending its own
+		vsched.Go("h:bping", func() {
+			for i := 0; vsched.Now() < w.horizon; i++ {
+				vsched.Sleep(300*time.Millisecond, "h:bping")
+				if c := w.B.Live(); c != nil && c.Idx == 0 {
+					id := uint32(3001 + 2*i)
+					w.bpingIDs = append(w.bpingIDs, id)
+					w.B.Send(c, &message.Ping{RequestID: message.RequestID(id)})
+				}
+			}
+		})
+	} else if w.p.BPings {
 		vsched.Go("h:bping", func() {
 			for i := 0; i < 4; i++ {
 				vsched.Sleep(interval/3+time.Duration(i)*70*time.Millisecond, "h:bping")
@@ -195,6 +229,11 @@ func (w *world) main() {
 				}
 			}
 		})
+	}
+	if w.p.LateReply {
+		mctx, mcancel := kit.Ctx(200 * time.Millisecond)
+		w.Conn.SendMetadata(mctx, &message.BaseTime{SessionID: "s", Name: "abandoned"})
+		mcancel()
 	}
 	if w.p.Burst > 0 {
 		vsched.Sleep(100*time.Millisecond, "h:before-burst")
